@@ -405,13 +405,16 @@ std::optional<int64_t> CgroupContext::getMemoryProtection(Error* err) const {
     return std::nullopt;
   }
 
-  std::unordered_set<CgroupPath> sibling_cgroups;
   std::vector<OomdContext::ConstCgroupContextRef> siblings;
   if (auto children = parent_ctx->get().children(err)) {
     for (const auto& name : *children) {
-      sibling_cgroups.insert(parent_cgroup.getChild(name));
+      // look each sibling up by its literal name: the set overload globs its
+      // paths, and a name such as "foo\x2dbar.service" or "a[1]" is not a
+      // pattern that matches itself
+      if (auto sibling = ctx_.addToCacheAndGet(parent_cgroup.getChild(name))) {
+        siblings.push_back(*sibling);
+      }
     }
-    siblings = ctx_.addToCacheAndGet(sibling_cgroups);
   } else {
     return std::nullopt;
   }
